@@ -529,13 +529,23 @@ func run(rr *mon.Run) {
 				continue
 			}
 			rep := 0
+			worst, ignoredSeen := out.stragglers, false
 			for k := 0; k < 5; k++ {
 				if o := runScenario(sc, false); o.exceeded || o.ignored {
 					rep++
+					if o.stragglers > worst {
+						worst = o.stragglers
+					}
+					ignoredSeen = ignoredSeen || o.ignored
 				}
 			}
 			if rep >= 2 {
 				attrs["class"] = "reproduced"
+				if worst <= 2*sc.G && !ignoredSeen {
+					// one transmission in flight plus one re-acquisition of the send lock ahead of
+					// the woken receive loop, per sender: the recorded finding
+					attrs["class"] = "one-extra-per-sender"
+				}
 				r.Violate("busy.stragglers", attrs, map[string]interface{}{"scenario": sc.String(), "stragglers": out.stragglers, "senders": sc.G, "reproduced": rep},
 					"[%s] %d transmissions went out after the busy indication (at most %d allowed); reproduced in %d of 5 repeats", sc.String(), out.stragglers, sc.G, rep)
 			} else {
